@@ -849,7 +849,8 @@ class PseudoNetCDFFile(PseudoNetCDFSelfReg, object):
             if newdims != olddims:
                 v.dimensions = newdims
         for oldkey, newkey in newkeys.items():
-            del outf.dimensions[oldkey]
+            if oldkey != newkey:
+                del outf.dimensions[oldkey]
 
         return outf
 
